@@ -1,0 +1,7 @@
+//go:build !verif
+
+package limitparallelrequests
+
+// verifYield is a scheduling point for the verification harness (/verif). Without
+// the build tag verif it is an empty function that the compiler inlines away.
+func verifYield(*LimitParallelRequests, string) {}
